@@ -637,12 +637,21 @@ impl VLog {
 		};
 
 		// Now append the key+value pair
-		let mut writer = self.writer.write();
-		let writer = writer.as_mut().unwrap();
+		let mut guard = self.writer.write();
+		let writer = guard.as_mut().unwrap();
 
-		let pointer = writer.append(key, value)?;
-
-		Ok(pointer)
+		match writer.append(key, value) {
+			Ok(pointer) => Ok(pointer),
+			Err(e) => {
+				// Part of the entry may have reached the file or still sit in the writer's
+				// buffer, while the offset the writer counts has not moved: every pointer it
+				// handed out from now on would be off by that much. Never append to this file
+				// again - the next value starts a new one (what was written of the failed
+				// entry is tail garbage no pointer refers to).
+				*guard = None;
+				Err(e)
+			}
+		}
 	}
 
 	/// Re-binds the value log to the files of its directory after a restore replaced
